@@ -68,6 +68,7 @@ type FuncContract struct {
 	NoOverflow    bool // skip overflow obligations
 	Asserts       map[int][]Clause
 	Used          bool
+	CallPreserves map[string][]Clause // callee short name -> predicates preserved by the function values passed to it
 }
 
 type SpecFunc struct {
@@ -168,20 +169,25 @@ func (cs *Contracts) loadFile(path string, pkgName string, commentPrefix bool) e
 		switch kw {
 		case "func":
 			name := rest
-			if pkgName != "" && !strings.Contains(strings.TrimPrefix(name, "(*"), ".") || (pkgName != "" && strings.HasPrefix(name, "(") && strings.Count(name, ".") == 1) {
-				// unqualified: "(*Lexer).next" or "NewLexer"
-				if strings.HasPrefix(name, "(*") {
-					name = "(*" + pkgName + "." + name[2:]
-				} else if strings.HasPrefix(name, "(") {
-					name = "(" + pkgName + "." + name[1:]
-				} else {
+			if pkgName != "" {
+				switch {
+				case strings.HasPrefix(name, "(*"):
+					if j := strings.Index(name, ")"); j > 0 && !strings.Contains(name[:j], ".") {
+						name = "(*" + pkgName + "." + name[2:]
+					}
+				case strings.HasPrefix(name, "("):
+					if j := strings.Index(name, ")"); j > 0 && !strings.Contains(name[:j], ".") {
+						name = "(" + pkgName + "." + name[1:]
+					}
+				case strings.HasPrefix(name, "iface "):
+				case !strings.Contains(name, "."):
 					name = pkgName + "." + name
 				}
 			}
 			if old, ok := cs.funcs[name]; ok {
 				cur = old
 			} else {
-				cur = &FuncContract{Name: name, Pkg: pkgName, LoopInv: map[int][]Clause{}, Callbacks: map[string]*Callback{}, Asserts: map[int][]Clause{}, Where: where}
+				cur = &FuncContract{Name: name, Pkg: pkgName, LoopInv: map[int][]Clause{}, Callbacks: map[string]*Callback{}, Asserts: map[int][]Clause{}, CallPreserves: map[string][]Clause{}, Where: where}
 				cs.funcs[name] = cur
 			}
 			cur.Props = append(cur.Props, props...)
@@ -298,6 +304,17 @@ func (cs *Contracts) loadFile(path string, pkgName string, commentPrefix bool) e
 					}
 					cur.LoopInv[n] = append(cur.LoopInv[n], Clause{Expr: e, Props: props, Text: text, Where: where})
 				}
+			case "call":
+				f := strings.Fields(rest)
+				if len(f) < 3 || f[1] != "preserves" {
+					return perr(fmt.Errorf("expected: call <callee> preserves <expr>"))
+				}
+				text := strings.TrimSpace(strings.TrimPrefix(strings.TrimSpace(strings.TrimPrefix(rest, f[0])), "preserves"))
+				e, err := parseCE(text)
+				if err != nil {
+					return perr(err)
+				}
+				cur.CallPreserves[f[0]] = append(cur.CallPreserves[f[0]], Clause{Expr: e, Props: props, Text: text, Where: where})
 			case "pure":
 				cur.Pure = true
 				cur.ModifiesGiven = true
@@ -755,6 +772,8 @@ func (p *ceParser) postfix() *CE {
 				e = &CE{Op: "old", Args: args}
 			case "iter":
 				e = &CE{Op: "iter", Args: args}
+			case "pre":
+				e = &CE{Op: "pre", Args: args}
 			default:
 				e = &CE{Op: "call", Name: name, Args: args}
 			}
@@ -830,7 +849,7 @@ func (e *CE) String() string {
 		return e.Args[0].String() + "[*]"
 	case "slice":
 		return e.Args[0].String() + "[" + e.Args[1].String() + ":" + e.Args[2].String() + "]"
-	case "call", "old", "iter":
+	case "call", "old", "iter", "pre":
 		n := e.Name
 		if e.Op != "call" {
 			n = e.Op
